@@ -40,6 +40,7 @@ def strategy(tier):
         fv = rg.free_vars(E)
         names = set(fv) | (set(dc["pvars"]) if draw(st.integers(0, 3)) == 0 else set())
         prows = draw(specs.param_rows(names, ks=(1, 1, 2, 3, 5) if fv else (0, 0, 1, 2))) if names else {}
+        assume(specs.ratio_ok_rows(E, prows))
         return {"dom": dc, "prows": prows, "n": draw(st.sampled_from([4, 8, 16, 33])),
                 "rng": draw(st.integers(0, 2 ** 31 - 1))}
     return s()
